@@ -53,3 +53,16 @@ impl DSU {
         self.sz[v]
     }
 }
+
+#[cfg(feature = "verif")]
+impl DSU {
+    /// Read-only view of the parent array (verification harness only)
+    pub fn verif_parents(&self) -> &[usize] {
+        &self.p
+    }
+
+    /// Read-only view of the size array (verification harness only)
+    pub fn verif_sizes(&self) -> &[usize] {
+        &self.sz
+    }
+}
